@@ -1145,6 +1145,8 @@ pub fn check_main(args: &[String]) -> i32 {
         pre_extra.insert("serde_generated_documents".into(), st.documents);
         pre_extra.insert("serde_documents_with_repeated_keys".into(), st.with_repeats);
         pre_extra.insert("serde_fault_free_cases".into(), st.fault_free);
+        pre_extra.insert("serde_cases_through_a_length_announcing_deserializer".into(), st.hinted);
+        pre_extra.insert("serde_cases_with_absent_or_wrong_length_hint".into(), st.wrong_hints);
         pre_extra.insert("serde_stream_faults_fired".into(), st.fired.short + st.fired.interrupted + st.fired.error + st.fired.eof);
         pre_extra.insert("serde_fault_short_transfer".into(), st.fired.short);
         pre_extra.insert("serde_fault_interrupted".into(), st.fired.interrupted);
